@@ -65,7 +65,7 @@ def models():
     return m
 
 
-INLINE = [r"Murmur3PartitionerHasher::(rotl64|fmix|hash_16_bytes|fetch_16_bytes_from_buf)$", r"^Token::new$", r"routing::Token::new$"]
+INLINE = [r"Murmur3PartitionerHasher::(rotl64|fmix|hash_16_bytes|fetch_16_bytes_from_buf)$", r"(^|::)Token::new$", r"routing::Token::new$"]
 
 
 def hasher_state(be, total_len, buf, h1, h2):
